@@ -2,6 +2,8 @@
 
 pub(crate) mod local;
 
+mod barrier;
 mod pool;
 
+pub(crate) use barrier::SampleBarrier;
 pub(crate) use pool::ThreadPool;
